@@ -42,7 +42,7 @@ def run_replay(prop, ob, tier):
     path = os.path.join(REPLAY_DIR, f'{prop}-{safe}.json')
     doc = {'property': prop, 'obligation': ob['name'], 'clause': ob['detail'], 'kind': ob['kind'],
            'counterexample': ob.get('counterexample'), 'solver': ob['backend'], 'solver_model': ob.get('model', ''),
-           'recipe': ob.get('replay')}
+           'recipe': ob.get('replay'), 'tier': tier}
     reproduced = None
     out = ''
     if ob.get('replay'):
